@@ -292,6 +292,26 @@ def case_rule(ctx, rule):
 def case_and_compare(ctx):
     F, rep = ctx.F, ctx.rep
     case_rule(ctx, "C15.R4")
+    rep.rule("C15.R9", "a name is its spelling: the text stored in a SimpleIdentifier / CommonIdentifier / ProperIdentifier built by the parser comes "
+             "from the tokens' spellings through conversions only (into / to_owned / clone ...) -- nothing replaces, trims or re-cases "
+             "characters on one of the paths that build names (a name written with a capital would then be another variable than the same name "
+             "written without)")
+    DENY = {"replace", "replacen", "trim", "trim_matches", "trim_start_matches", "trim_end_matches", "trim_start", "trim_end", "to_lowercase", "to_uppercase",
+            "to_ascii_lowercase", "to_ascii_uppercase", "strip_prefix", "strip_suffix", "split", "retain", "remove", "truncate", "filter", "escape_debug"}
+    n9 = 0
+    for adt_ in ("frontend::ast::SimpleIdentifier", "frontend::ast::CommonIdentifier", "frontend::ast::ProperIdentifier"):
+        for fn_, bi_, st_ in common.aggregates_of(F, adt_):
+            if not fn_.file.endswith("frontend/parser.rs"):
+                continue
+            n9 += 1
+            names_ = set()
+            for o_ in st_["rv"].get("ops", []):
+                names_ |= common.deep_call_names(F, fn_, o_)
+            bad_ = sorted(names_ & DENY)
+            rep.ob("C15.R9", "name-is-its-spelling::%s::%s" % (adt_.rsplit("::", 1)[-1], common.top_fn(F, fn_).path.rsplit("::", 1)[-1]), not bad_,
+                   "" if not bad_ else "%s builds a %s from text that went through %s: the stored name is no longer the spelling, on this path only" % (common.top_fn(F, fn_).path.rsplit("::", 1)[-1], adt_.rsplit("::", 1)[-1], bad_),
+                   fn_.loc(st_.get("line")), how="spelling -> name by conversion only")
+    rep.floor("C15.R9", n9, 3, "name constructions in the parser")
     rep.rule("C15.R8", "what may follow an article or possessive is any word: the matcher of the second word in Parser::parse_common_identifier is "
              "exactly lexer::is_word on the token's spelling (the same notion of word the poetic literals use) -- a narrower test makes some "
              "spellings valid as simple or proper names and invalid as common names")
